@@ -1,4 +1,5 @@
 import Refinery.Lemmas.SamplerRegistryRun
+import Refinery.Lemmas.SamplerRegistryPeers
 /-!
 # C12 — sampler state is shared across workers and isolated between definitions
 
@@ -103,10 +104,11 @@ theorem workers_share_concurrent (c0 : Config) (a0 : Option Nat) (cfgs : List Co
       ent1.slots.map (·.id) = ent2.slots.map (·.id) := by
   intro w1 hw1 w2 hw2 ent1 ent2 hm1 hm2
   have ho' : OpsIn (fun e => ':' ∉ e) (ops ++ ws'.map fun w => Op.get w env) := by
-    intro w e hm
+    intro op hm e he
     rcases List.mem_append.mp hm with h | h
-    · exact ho w e h
-    · obtain ⟨w', _, he⟩ := List.mem_map.mp h
+    · exact ho op h e he
+    · obtain ⟨w', _, hop⟩ := List.mem_map.mp h
+      subst hop
       cases he; exact henv
   have inv0 := inv_run c0 a0 cfgs _ ops ho
   have hrun : run c0 a0 cfgs (ops ++ ws'.map fun w => Op.get w env) =
@@ -126,6 +128,26 @@ theorem workers_share_concurrent (c0 : Config) (a0 : Option Nat) (cfgs : List Co
   obtain ⟨e2, s2⟩ := fresh w2 hw2 ent2 hm2
   exact workers_share_entry c0 a0 cfgs _ ho' w1 w2 env ent1 ent2 hm1 hm2 e1 e2 (s1.trans s2.symm)
 
+/-! ### the shared state itself -/
+
+/-- the events instance `id` has counted in its current window -/
+def fedOf (st : St) (id : Nat) : Nat := (AList.get st.fed id).getD 0
+
+/-- **feed_count_survives_other_workers_get** — another worker building (or re-using) its sampler
+does not touch what the shared instances have counted: the state worker A fed is the state A sees
+afterwards. -/
+theorem feed_count_survives_other_workers_get (cfgs : List Config) (st : St) (w : Nat) (env : Str) (id : Nat) :
+    fedOf (step cfgs st (.get w env)) id = fedOf st id := by
+  unfold fedOf
+  rw [step_fed cfgs st (.get w env) (fun _ _ _ h => by cases h)]
+
+/-- more generally, only feeding traffic changes a count: not sampler creation on any worker, peer
+changes, config swaps, registry clears or cache clears. -/
+theorem feed_count_changed_by_feed_only (cfgs : List Config) (st : St) (op : Op)
+    (hop : ∀ w e n, op ≠ .feed w e n) (id : Nat) : fedOf (step cfgs st op) id = fedOf st id := by
+  unfold fedOf
+  rw [step_fed cfgs st op hop]
+
 /-- the steps of `InMemCollector.reloadConfigs` and what follows it, in the order the code performs
 them: the factory is cleared first; then (stress relief is updated, and meanwhile) a worker `w` that
 has not been signalled yet may make a decision for `env`; then all workers `ws` are signalled, handle
@@ -144,12 +166,14 @@ theorem workers_share_after_reload (c0 : Config) (a0 : Option Nat) (cfgs : List 
       ((w2, env), ent2) ∈ (run c0 a0 cfgs (ops ++ reloadSeq w env ws ws')).caches →
       ent1.slots.map (·.id) = ent2.slots.map (·.id) := by
   have ho1 : OpsIn (fun e => ':' ∉ e) (ops ++ ([.clear, .get w env] ++ ws.map Op.wreload)) := by
-    intro w' e hm
+    intro op hm e he
     rcases List.mem_append.mp hm with h | h
-    · exact ho w' e h
+    · exact ho op h e he
     · rcases List.mem_append.mp h with h | h
-      · simp at h; rw [h.2]; exact henv
-      · obtain ⟨x, _, hx⟩ := List.mem_map.mp h; cases hx
+      · simp only [List.mem_cons, List.not_mem_nil, or_false] at h
+        rcases h with h | h <;> subst h <;> cases he
+        exact henv
+      · obtain ⟨x, _, hx⟩ := List.mem_map.mp h; subst hx; cases he
   have hfresh : ∀ w' ∈ ws, ∀ ent,
       ((w', env), ent) ∉ (run c0 a0 cfgs (ops ++ ([.clear, .get w env] ++ ws.map Op.wreload))).caches := by
     intro w' hw' ent hm
@@ -177,7 +201,7 @@ theorem reload_makes_stale (c0 : Config) (a0 : Option Nat) (cfgs : List Config) 
     ∀ key ent, (key, ent) ∈ (run c0 a0 cfgs (ops ++ [.clear])).caches →
       ent.epoch < (run c0 a0 cfgs (ops ++ [.clear])).epoch := by
   intro key ent hm
-  have inv := inv_run c0 a0 cfgs (fun _ => True) ops (fun _ _ _ => trivial)
+  have inv := inv_run c0 a0 cfgs (fun _ => True) ops (fun _ _ _ _ => trivial)
   have e : run c0 a0 cfgs (ops ++ [.clear]) =
       { run c0 a0 cfgs ops with reg := [], goalCfg := [], epoch := (run c0 a0 cfgs ops).epoch + 1 } := by
     simp [run, List.foldl_append, step]
@@ -191,7 +215,7 @@ theorem built_is_current (cfgs : List Config) (st : St) (w : Nat) (env : Str) (e
     (hmiss : AList.get st.caches (w, env) = none)
     (hhit : AList.get (step cfgs st (.get w env)).caches (w, env) = some ent) :
     ent.epoch = (step cfgs st (.get w env)).epoch := by
-  simp only [step, hmiss] at hhit ⊢
+  simp only [step, stepGet, hmiss] at hhit ⊢
   cases hg : getSampler st env with
   | none => simp only [hg] at hhit; rw [hmiss] at hhit; cases hhit
   | some r =>
@@ -207,7 +231,7 @@ theorem reload_clears (c0 : Config) (a0 : Option Nat) (cfgs : List Config) (ops 
       (key2, ent2) ∈ (run c0 a0 cfgs ops).caches → ent1.epoch ≠ ent2.epoch →
       ∀ s1 ∈ ent1.slots, ∀ s2 ∈ ent2.slots, ∀ id, s1.id = some id → s2.id ≠ some id := by
   intro key1 ent1 key2 ent2 hm1 hm2 hne s1 hs1 s2 hs2 id h1 h2
-  have inv := inv_run c0 a0 cfgs (fun _ => True) ops (fun _ _ _ => trivial)
+  have inv := inv_run c0 a0 cfgs (fun _ => True) ops (fun _ _ _ _ => trivial)
   obtain ⟨i1, hi1, _, hb1, _⟩ := ((inv.c.slotWF key1 ent1 hm1).2 s1 hs1).2.2.2 id h1
   obtain ⟨i2, hi2, _, hb2, _⟩ := ((inv.c.slotWF key2 ent2 hm2).2 s2 hs2).2.2.2 id h2
   rw [hi1] at hi2; cases hi2
@@ -357,6 +381,7 @@ theorem workers_share_needs_faithful_keys :
 /-! Non-vacuity: concrete histories evaluated by the kernel. -/
 example : makeKey (rulesPrefix (str "prod")) (dynA 0) = str "rules:prod::dynamic:10:[a]" := by decide
 example : makeKey (str "e") { dynA 0 with rate := -3, fields := [str "b", str "a c"] } = str "e:dynamic:-3:[a c b]" := by decide
+example : (run cfgTuning (some 1) [] [.feed 0 (str "prod") 5, .get 1 (str "prod"), .feed 1 (str "prod") 2]).fed = [(0, 14)] := by decide
 example : ((run cfgTuning (some 1) [] [.get 0 (str "prod"), .clear, .get 1 (str "prod")]).caches.map
     fun p => (p.1.1, p.2.epoch, p.2.slots.map (·.id))) = [(1, 1, [some 1, some 1]), (0, 0, [some 0, some 0])] := by decide
 
